@@ -23,7 +23,7 @@ from ..report import Inst
 RULE = 'R18'
 
 SCOPE = [
-    ('Model.get_associated_assets_by_field_name', ('C01', 'C05'), True),
+    ('Model.get_associated_assets_by_field_name', ('C01', 'C05', 'C02'), True),
     ('LanguageGraph.process_step_expression', ('C15', 'C01'), True),
     ('LanguageGraph.get_association_by_fields_and_assets', ('C15', 'C18'), False),
     ('Model.association_exists_between_assets', ('C05', 'C06'), False),
